@@ -29,13 +29,15 @@ var stringPool = []string{
 	"", " ", "a", "b", "ab", "abc", "a b", "\x00", "a\x00b", "é", "日本語", "😀", "a😀b", "<>&", "<script>&amp;", "\"", "\\", "\"\\\"", "\n\t\r",
 	"<nil>", "null", "nil", "true", "0", "-1", "a&b=c", "a/b?c#d", "%41", "50%", "a+b", "  ", "\u007f", "\u0080", "�", "ÿ", "A", "B", "a,b", "[x]", "{}",
 	strings.Repeat("k", 1024), "ab́", "\U0010ffff",
+	// texts that look like patterns: a value is compared, never matched
+	"*", "a*", "ab*", "a%", "a_", "a?", "a.*", "^a", "[a-b]",
 	// texts that LOOK like JSON escapes (a literal backslash followed by u0026 etc.): any textual post-processing of
 	// encoded output instead of encoding the value breaks on them
 	"\\u0026", "\\u003c", "a\\u003eb", "\\\\u0026", "\\n", "\\\"", "\\u2028", "&amp;\\u0026<", "%5Cu003c",
 }
 
 var idPool = []string{"1", "2", "3", "10", "a", "b", "ab", "id-1", "id_2", "A", "é", "日本", "a b", "a/b", "a?b", "a#b", "a%b", "a&b", "a+b", "\"q\"", "<i>", "x\\y", "\x00", "😀", "0", "-", ".", "~", "a,b", "[1]",
-	"01", "007", "1a", "+7", "1e3", "0x1", "2 ", " 2", "-0", "9", "10a", "..", "a//b", "./k", "\\u0026", "\\u003c1", "s1", "s", "b1", "_1", "1_"}
+	"01", "007", "1a", "a*", "*", "id-1*", "+7", "1e3", "0x1", "2 ", " 2", "-0", "9", "10a", "..", "a//b", "./k", "\\u0026", "\\u003c1", "s1", "s", "b1", "_1", "1_"}
 
 var safeIDPool = []string{"1", "2", "3", "10", "a", "b", "ab", "id-1", "id_2", "A", "x9", "0", "zz", "k.1", "~t"}
 
